@@ -511,7 +511,9 @@ func (x *Unit) atomicCall(st *State, pc *preparedCall, name string) ([]Val, bool
 	addr := pc.recv.T
 	h := x.heapGet(st, key, ArraySort(SInt, srt))
 	cur := Select(h, addr)
-	set := func(v T) { st.heap[key] = x.define("H_atomic", Store(x.heapGet(st, key, ArraySort(SInt, srt)), addr, v)) }
+	set := func(v T) {
+		st.heap[key] = x.define("H_atomic", Store(x.heapGet(st, key, ArraySort(SInt, srt)), addr, v))
+	}
 	args := pc.args
 	res := func(t T) []Val {
 		var typ types.Type = vt
